@@ -3,6 +3,7 @@ import Rare.Base.F64Str
 import Rare.Model.C03
 import Rare.Model.C03Reduce
 import Rare.Model.C03Analyze
+import Rare.Model.C03Cmd
 import Rare.Drv.Expr
 /-!
 Line-protocol driver for C03 (see `harness/corr/c03.go` and `extra/C03.py`).
@@ -17,6 +18,9 @@ Line-protocol driver for C03 (see `harness/corr/c03.go` and `extra/C03.py`).
   tbl <delim> <ncols> <samples> <renders>
                                       the table aggregator driven through samples and the trim step of spark's render
                                       callback (a render after every sample count in <renders>), final render, CSV
+  cmd <name> <W,R,B,K> <flags> <n> <atleast> <ncols> <sort> <delim> <nomatch> <files>
+                                      histo / table / heatmap / spark / bars end to end (`Model/C03Cmd.lean`): the tuning is
+                                      ignored – the answer is the sequential reference of the concatenated files
   reduce <flags> <initial> <sort> <groups> <accums> <nomatch> <elements>
                                       `rare reduce` end to end (`Rare.C03.reduceRun`): set-up, sampling, final render
                                       (as text with runs of spaces squashed), `--csv` text, exit status
@@ -153,6 +157,44 @@ def analyzeOp (flags : Nat) (qs : List Bytes) (nMiss : Nat) (samples : List Byte
     | .error _ => "panic"
     | .ok r => s!"ok {r.exit} {Hex.enc (joinLines r.lines)}"
 
+/-! ### `cmd`: the five counting commands -/
+
+/-- `--sort-cols text` (any spelling, no modifier that reverses): the column order `sparkTrim` models -/
+def isPlainText (sort : Bytes) : Bool :=
+  match C13.parseSort C13.asciiLower sort with
+  | .ok (n, rev) => C13.lookupMode C13.asciiLower n == some .text && !rev
+  | .error _ => false
+
+def cmdAnswer (csvStdout : Bool) (o : CmdOut) : String :=
+  if csvStdout then s!"ok {o.exit} {Hex.enc o.csv} -"
+  else s!"ok {o.exit} {Hex.enc o.csv} {Hex.enc (joinLines (o.lines.map squash))}"
+
+def cmdOp (name : String) (flags n : Nat) (atLeast : Int) (ncols : Nat) (sort delim : Bytes) (nMiss : Nat)
+    (files : List (List Bytes)) : String :=
+  -- a line whose extracted key is empty counts as ignored (extractor.go: `len(extractedKey) > 0`)
+  let samples := files.flatten.filter (· ≠ [])
+  let k : Counters := ⟨samples.length, files.flatten.length + nMiss, files.flatten.length - samples.length⟩
+  let csvStdout := flags / 4 % 2 = 1
+  match name with
+  | "histo" =>
+    let c := Counter.run samples
+    match pureSortLess sort with
+    | none => "unmodelled sorter"
+    | some less => cmdAnswer csvStdout (histoCmd isortFn less (akeys c.items) n atLeast (flags % 2 = 1) c k 0)
+  | "bars" =>
+    match SubKeyCounter.run samples with
+    | .error _ => "panic"
+    | .ok s => cmdAnswer csvStdout (barsCmd isortFn (akeys s.items) s k 0)
+  | "spark" =>
+    if delim.isEmpty then "unmodelled empty-delimiter"
+    else if !(flags / 2 % 2 = 1) && !sortsByValue sort && !isPlainText sort then "unmodelled sorter"
+    else cmdAnswer csvStdout (sparkCmd ncols (flags / 2 % 2 = 1) sort (Table.run delim samples) k 0)
+  | _ =>
+    if delim.isEmpty then "unmodelled empty-delimiter"
+    else
+      let t := Table.run delim samples
+      cmdAnswer csvStdout (tableCmd isortFn (akeys t.cols) (akeys t.rows) t k 0)
+
 /-! ### `tbl`: the table aggregator under the render callback of `spark` -/
 
 def natList? (s : String) : Option (List Nat) :=
@@ -165,6 +207,10 @@ def tblOp (d : Bytes) (ncols : Nat) (samples : List Bytes) (renders : List Nat) 
   s!"ok {Hex.enc csv} {t.rows.length} {t.cols.length} {t.sum} {mm.1} {mm.2} {t.errors}"
 
 def handle : List String → String
+  | ["cmd", name, _tune, fl, n, al, nc, srt, d, nm, files] =>
+    match nat? fl, nat? n, int? al, nat? nc, Hex.dec srt, Hex.dec d, nat? nm, (files.splitOn "|").mapM decHexList with
+    | some fl, some n, some al, some nc, some srt, some d, some nm, some files => cmdOp name fl n al nc srt d nm files
+    | _, _, _, _, _, _, _, _ => "bad-args"
   | ["tbl", d, n, ss, rs] =>
     match Hex.dec d, nat? n, decHexList ss, natList? rs with
     | some d, some n, some ss, some rs => if d.isEmpty then "unmodelled empty-delimiter" else tblOp d n ss rs
